@@ -401,3 +401,193 @@ def rule_metric_init_table(repo, rep):
     else:
       rep.derived(R, key, site(f), sample=dict(rule=R, scenarios=len(scen)))
   rep.floor('metric-init scenarios interpreted', len(scen), 100)
+
+
+# ------------------------------------------------- transformation init
+class _CompWorld(World):
+  def __init__(self, sc):
+    self.sc = sc
+    self.objs = {}
+
+  def attr(self, it, v, attr, node):
+    sc = self.sc
+    if v == S('input'):
+      if attr == 'shape':
+        return (sc['n'], sc['d'])
+      if attr == 'ndim':
+        return 2
+    if tg(v) == 'arr' and attr == 'shape':
+      return sc['shape']
+    if tg(v) == 'PCA' and attr == 'components_':
+      o = self.objs[v[1]]
+      return S('pca-comp', o['k'], o['rs'], o.get('fit'))
+    if tg(v) == 'LDA' and attr == 'scalings_':
+      o = self.objs[v[1]]
+      return S('lda-scal', o['k'], o.get('fit'))
+    if tg(v) in ('lda-scal',) and attr == 'T':
+      return S('T', v)
+    if v == Lib('sys.stdout'):
+      return S('stdout')
+    return NotImplemented
+
+  def subscript(self, it, base, idx, node):
+    if tg(base) == 'T' and isinstance(idx, slice) and idx.start is None \
+            and idx.step is None and isinstance(idx.stop, int):
+      return S('rows', base, idx.stop)
+    return NotImplemented
+
+  def call(self, it, d, recv, args, kwargs, node):
+    sc = self.sc
+    if d == 'isinstance' and len(args) == 2:
+      if args[1] == Lib('numpy.ndarray'):
+        return tg(args[0]) in ('arr', 'eye', 'randn', 'pca-comp', 'rows')
+      if args[1] == Lib('str'):
+        return isinstance(args[0], str)
+      raise Undecided('isinstance %r' % (args[1],))
+    if d == 'len' and args and args[0] == S('uniq'):
+      return sc['classes']
+    if d.startswith('.'):
+      m = d[1:]
+      if tg(recv) == 'rng' and m in ('randn', 'rand'):
+        if m == 'randn' and len(args) == 2:
+          return S('randn', args[0], args[1])
+        raise Undecided('rng.%s' % m)
+      if tg(recv) == 'rng' and m in ('standard_normal', 'normal'):
+        size = kwargs.get('size', args[-1] if args else None)
+        if isinstance(size, tuple) and len(size) == 2 and \
+                (m == 'standard_normal' or not args or len(args) == 1):
+          return S('randn', size[0], size[1])
+        raise Undecided('rng.%s' % m)
+      if tg(recv) in ('PCA', 'LDA') and m == 'fit':
+        self.objs[recv[1]]['fit'] = tuple(args) + tuple(
+            sorted(kwargs.items()))
+        return recv
+      if recv == S('stdout') and m == 'flush':
+        return None
+      if m == 'copy' and tg(recv) == 'arr':
+        return recv
+      return NotImplemented
+    short = _short(d)
+    if short == 'check_array' and args and tg(args[0]) == 'arr':
+      return S('arr', 'copy') if kwargs.get('copy') is True else args[0]
+    if short == 'check_random_state':
+      return S('rng', args[0] if args else None)
+    if d.startswith('numpy.'):
+      if short == 'unique' and args == [S('y')] and not kwargs:
+        return S('uniq')
+      if short == 'eye' and args and all(isinstance(a, int) for a in args):
+        return S('eye', args[0], args[1] if len(args) > 1 else args[0])
+      if short == 'identity' and len(args) == 1:
+        return S('eye', args[0], args[0])
+    if short == 'PCA' and 'sklearn' in d:
+      if args or set(kwargs) - {'n_components', 'random_state'}:
+        raise Undecided('PCA options')
+      k = len(self.objs)
+      self.objs[k] = dict(k=kwargs.get('n_components'),
+                          rs=kwargs.get('random_state'))
+      return S('PCA', k)
+    if short == 'LinearDiscriminantAnalysis':
+      if args or set(kwargs) - {'n_components'}:
+        raise Undecided('LDA options')
+      k = len(self.objs)
+      self.objs[k] = dict(k=kwargs.get('n_components'), rs=None)
+      return S('LDA', k)
+    if d == 'time.time':
+      return 0
+    return NotImplemented
+
+
+def rule_components_init_table(repo, rep):
+  R = 'R-INTERP:components-init-table'
+  rep.rule(R, '_initialize_components interpreted on init in {identity, '
+           'random, pca, lda, auto, an unknown string, arrays of right / '
+           'wrong shape} x has_classes x n_components x numbers of classes '
+           'and samples: the array is shape-checked on the right axes and '
+           'returned (copied), lda without classes and unknown strings are '
+           'ValueErrors, the strings give np.eye(k, d), rng.randn(k, d), '
+           'PCA(k, rng).fit(X).components_, LDA(k).fit(X, y).scalings_.T[:k], '
+           'and auto follows the documented three-way rule')
+  f = repo.get_func('_util._initialize_components')
+  if f is None:
+    rep.unknown(R, '_util._initialize_components', '', 'vanished')
+    return
+  rep.analysed(f)
+  ps = f.params()
+  known = {'n_components', 'input', 'y', 'init', 'verbose', 'random_state',
+           'has_classes'}
+  if set(ps) - known:
+    rep.unknown(R, '_util._initialize_components', site(f),
+                'parameters %s' % sorted(set(ps) - known))
+    return
+  d = 3
+  scen = []
+  for has in (True, False):
+    for k in (1, 2, 3):
+      for classes in (2, 3, 6):
+        for n in (2, 11):
+          base = dict(has=has, k=k, classes=classes, n=n, d=d, shape=None)
+          for init in ('identity', 'random', 'pca', 'lda', 'auto', 'bogus'):
+            scen.append(dict(base, init=init))
+      for shape in ((k, d), (k, d + 1), (d + 1, d), (k + 1, d), (d, d)):
+        scen.append(dict(has=has, k=k, classes=3, n=11, d=d, init='array',
+                         shape=shape))
+  bad = {}
+  unk = None
+  for sc in scen:
+    k = sc['k']
+    rng = S('rng', S('seed'))
+    forms = {'identity': S('eye', k, d), 'random': S('randn', k, d),
+             'pca': S('pca-comp', k, rng, (S('input'),)),
+             'lda': S('rows', S('T', S('lda-scal', k, (S('input'), S('y')))),
+                      k)}
+    if sc['init'] == 'array':
+      k0, d0 = sc['shape']
+      if d0 != d or k0 > d0 or k != k0:
+        want = ('raise', 'ValueError')
+      else:
+        want = ('return', S('arr', 'copy'))
+    elif sc['init'] == 'bogus' or (sc['init'] == 'lda' and not sc['has']):
+      want = ('raise', 'ValueError')
+    elif sc['init'] == 'auto':
+      if sc['has'] and k <= min(d, sc['classes'] - 1):
+        want = ('return', forms['lda'])
+      elif k < min(d, sc['n']):
+        want = ('return', forms['pca'])
+      else:
+        want = ('return', forms['identity'])
+    else:
+      want = ('return', forms[sc['init']])
+    w = _CompWorld(sc)
+    env = dict(n_components=k, input=S('input'), y=S('y'),
+               init=S('arr', 'caller') if sc['init'] == 'array'
+               else sc['init'], verbose=False, random_state=S('seed'),
+               has_classes=sc['has'])
+    env = dict((a, b) for a, b in env.items() if a in ps)
+    tag = ', '.join('%s=%s' % (a, sc[a]) for a in (
+        'init', 'shape', 'has', 'k', 'classes', 'n') if sc[a] is not None)
+    try:
+      out = Interp(repo, f, w).run(env)
+    except Undecided as u:
+      unk = unk or '%s (%s)' % (u, tag)
+      continue
+    if out[0] == 'raise':
+      got = ('raise', 'ValueError' if 'ValueError' in out[1] else out[1][0])
+    else:
+      got = ('return', out[1])
+    if got != want:
+      clause = sc['init']
+      if clause not in bad:
+        bad[clause] = ('for %s (d=%d): %s %r; documented: %s %r' % (
+            tag, d, got[0], got[1], want[0], want[1]),
+            out[2] if out[0] == 'raise' else None)
+  for clause in ('array', 'identity', 'random', 'pca', 'lda', 'auto',
+                 'bogus'):
+    key = '_util._initialize_components:%s' % clause
+    if clause in bad:
+      rep.refuted(R, key, site(f, bad[clause][1])
+                  if bad[clause][1] is not None else site(f), bad[clause][0])
+    elif unk:
+      rep.unknown(R, key, site(f), unk)
+    else:
+      rep.derived(R, key, site(f), sample=dict(rule=R, scenarios=len(scen)))
+  rep.floor('components-init scenarios interpreted', len(scen), 200)
